@@ -63,6 +63,11 @@ CLAIMED["C11"] = ("§3 C11",
     "Narrow: decides that every string value and mapping key passes the quoting decision (shouldQuote / quoteScalar / blockLiteralSafe or an explicit tag/style) before it is emitted, in both live encoders, and that the scalar switches cover all literal kinds. It does not decide whether the predicates are right for a given string, nor numbers, nor the JSON-as-YAML clause.",
     "third-party emitters honour styles and raw scalars")
 
+CLAIMED["C19"] = ("§3 C19",
+    "lockset guarded-by analysis for package-level and struct-field state with alias normalisation, double-checked-insertion rule, post-init global-write scan over the API import closure, cache type and field-write ownership checks, OpContext creation who-may-call",
+    "Decides that the runtime's shared label table and import index are accessed only under their locks (write lock for writes) and that optimistic insertions re-check under the write lock, that no other package-level variable of the API import closure is written after init unless it is a sync/atomic type or reviewed, that caches are concurrency-safe types whose published values are written only by their constructors, that the shared structs hold no OpContext or Pool, and that package cue creates an OpContext only in newContext, fresh per call. It does not decide lazy finalisation of shared vertices under concurrent readers.",
+    "alias-precise ownership of *adt.Vertex is out of reach (no pointer analysis)")
+
 # properties not claimed (yet) -> reason
 NOT_APPLICABLE = {
     "C03": "value-level: the content is the cell values of the bound-simplification decision table over numbers; no shape rule separates a correct table from an off-by-one (DESIGN.md §4)",
